@@ -30,7 +30,8 @@ Proof.
     assert (Hu : forall p st, cat ce p = Some st -> forall e, In e (nsuccs (bat c p) p st ++ esuccs st) -> edge_ok ce e = true).
     { intros p st Hc e He. pose proof (cat_some_lt _ _ _ Hc) as Lt. rewrite Hlen in Lt.
       specialize (Hall p). rewrite in_seq in Hall. specialize (Hall ltac:(lia)).
-      unfold unit_ok in Hall. rewrite Hc in Hall. rewrite forallb_forall in Hall. apply Hall. exact He. }
+      unfold unit_ok in Hall. rewrite Hc in Hall. apply andb_true_iff in Hall as [Hall _].
+      rewrite forallb_forall in Hall. apply Hall. exact He. }
     destruct St as [p st s' Hin | p st s' Hin]; simpl in IH; apply edge_ok_spec;
       apply (Hu p st IH); apply in_or_app; [left|right]; exact Hin.
 Qed.
@@ -246,4 +247,47 @@ Proof.
   unfold exiting310. destruct (scan c lasti); try discriminate.
   destruct (walk (walk_fuel c) c pop [(0, [])] []) eqn:W; try discriminate.
   exfalso. revert W. apply walk_fuel_enough. rewrite unseen_nil. unfold walk_fuel. simpl. lia.
+Qed.
+
+(* ------------------------------------------------------------------ the walk does not crash on certified code *)
+Lemma cert_pop_nonempty c ce p st :
+  check_bcert c ce = true -> cat ce p = Some st -> bat c p = BPopBlock -> st <> [].
+Proof.
+  unfold check_bcert. intros H Hc B. apply andb_true_iff in H as [H Hall]. apply andb_true_iff in H as [Hlen _].
+  apply Nat.eqb_eq in Hlen. pose proof (cat_some_lt _ _ _ Hc) as Lt. rewrite Hlen in Lt.
+  rewrite forallb_forall in Hall. specialize (Hall p). rewrite in_seq in Hall. specialize (Hall ltac:(lia)).
+  unfold unit_ok in Hall. rewrite Hc, B in Hall. apply andb_true_iff in Hall as [_ Hall].
+  intros ->. simpl in Hall. discriminate.
+Qed.
+
+Lemma walk_no_crash c ce pop : check_bcert c ce = true -> forall fuel todo seen,
+  all_reach c todo -> walk fuel c pop todo seen <> WCrash.
+Proof.
+  intros Hc. assert (Hlen : length ce = length c).
+  { unfold check_bcert in Hc. apply andb_true_iff in Hc as [H _]. apply andb_true_iff in H as [H _].
+    apply Nat.eqb_eq. exact H. }
+  induction fuel as [|f IH]; intros todo seen A; simpl; [discriminate|].
+  destruct todo as [|[p0 st] rest]; [discriminate|].
+  assert (Arest : all_reach c rest) by (intros it H; apply A; right; exact H).
+  destruct (bit_get seen p0); [apply IH; exact Arest|].
+  assert (R0 : breach c (p0, st)) by (apply A; left; reflexivity).
+  destruct (length c <=? p0) eqn:L0.
+  { apply Nat.leb_le in L0. pose proof (cat_some_lt _ _ _ (cert_sound c ce _ Hc R0)) as Lt. simpl in Lt. lia. }
+  assert (R : breach c (skip_ext c p0, st)) by (apply skip_ext_reach; exact R0).
+  destruct (length c <=? skip_ext c p0) eqn:L1.
+  { apply Nat.leb_le in L1. pose proof (cat_some_lt _ _ _ (cert_sound c ce _ Hc R)) as Lt. simpl in Lt. lia. }
+  set (p := skip_ext c p0) in *.
+  pose proof (jumps_reach c p st R) as J.
+  destruct (is_pop_block (bat c p)) eqn:PB.
+  - destruct (bat c p) eqn:B; try discriminate. clear PB.
+    pose proof (cert_pop_nonempty c ce p st Hc (cert_sound c ce _ Hc R) B) as NE.
+    destruct (p =? pop).
+    + destruct (last_opt_nonempty st NE) as [h Lh]. rewrite Lh. discriminate.
+    + destruct st as [|x st']; [contradiction|].
+      apply IH. apply all_reach_app; [exact Arest|]. apply all_reach_app; [exact J|].
+      intros it [H|[]]. subst it. eapply BR_step; [exact R|]. apply BS_normal. rewrite B. simpl. left. reflexivity.
+  - apply IH. apply all_reach_app; [exact Arest|]. apply all_reach_app; [exact J|].
+    destruct (no_fall (bat c p)) eqn:NF; [intros it []|].
+    intros it [H|[]]. subst it. eapply BR_step; [exact R|]. apply BS_normal.
+    destruct (bat c p) eqn:B; simpl in *; try discriminate; auto.
 Qed.
